@@ -188,11 +188,6 @@ package regattaserver
 //@ func regattapb.(*SnapshotRequest).GetTable
 //@   assumed
 //@   modifies nothing
-//@ func snapshot.NewTemp
-//@   assumed
-//@   results f, err
-//@   ensures err == nil ==> f != nil && fresh(f) && f.File != nil && fresh(f.File) && f.w != nil && fresh(f.w) && f.r != nil && fresh(f.r) && len(f.lenBuff) == 8 && fresh(f.lenBuff) && allocated(f.lenBuff)
-//@   modifies nothing
 // ActiveTable.Snapshot: the state machine writes the pairs of one point-in-time view into the writer
 // and answers with the applied index of that same view (fsm.commandSnapshot, C07.capture.*)
 //@ func table.(*ActiveTable).Snapshot
@@ -200,15 +195,6 @@ package regattaserver
 //@   results resp, err
 //@   ensures err == nil ==> resp != nil && fresh(resp)
 //@   modifies writer.sdata, writer.slen, writer.nmsg, writer.msg
-//@ func snapshot.(*snapshotFile).Sync
-//@   assumed
-//@   modifies nothing
-//@ func snapshot.(*snapshotFile).Close
-//@   assumed
-//@   modifies nothing
-//@ func snapshot.(*snapshotFile).Path
-//@   assumed
-//@   modifies nothing
 //@ func (*SnapshotServer).Stream$1
 //@   requires *sf != nil
 //@   modifies nothing
@@ -339,3 +325,28 @@ package regattaserver
 //@   loop 0 invariant [C06.stream.next] logRange.FirstIndex == server.expect && 1 <= logRange.FirstIndex && logRange.FirstIndex <= logRange.LastIndex
 //@   loop 1 invariant -1 <= rangeindex && rangeindex < len(entries) && len(commands) == rangeindex + 1 && fresh(commands) && logRange.FirstIndex == server.expect
 //@   loop 1 invariant forall j int :: 0 <= j && j <= rangeindex ==> commands[j] != nil && commands[j].LeaderIndex == entries[j].Index && commands[j].Command != nil && commands[j].Command.LeaderIndex != nil && *commands[j].Command.LeaderIndex == entries[j].Index
+
+// ---------------------------------------------------------------- server construction (C17)
+
+// NewServer: every option the caller built - credentials, interceptor chains - reaches grpc.NewServer,
+// after the package defaults
+//@ import reflection "google.golang.org/grpc/reflection"
+//@ import grpc "google.golang.org/grpc"
+//@ trustframe "google.golang.org/grpc/reflection"
+//@ func grpc.NewServer
+//@   assumed
+//@   ensures result != nil && fresh(result)
+//@   modifies nothing
+// the package default options are a slice literal: no spare capacity an append could write into
+//@ initfact defaultOpts : len(defaultOpts) == cap(defaultOpts)
+//@ func NewServer
+//@   results rs
+//@   before grpc.NewServer assert [C17.server.opts] len(opt) == len(defaultOpts) + len(opts) && forall j int :: 0 <= j && j < len(opts) ==> opt[len(defaultOpts) + j] == opts[j]
+//@   ensures rs != nil && fresh(rs) && rs.Server != nil && rs.listener == l && rs.log == logger
+//@   modifies nothing
+
+// NewForwardingKVServer: reads go to the given storage, writes to the given leader client, and
+// acknowledged writes wait on the given notification queue (C11: read-your-writes on a follower)
+//@ func NewForwardingKVServer
+//@   ensures [C11.forward.wiring] result != nil && fresh(result) && result.KVServer.Storage == storage && result.client == client && typeIs(result.q, *storage.IndexNotificationQueue) && asType(result.q, *storage.IndexNotificationQueue) == q
+//@   modifies nothing
